@@ -241,7 +241,7 @@ def run(ctx):
                           % (rec["sc"]["estimator"], rejects[rec["tid"]], canon(rec["obs"])[:300]))
     return ctx.finish(
         rule="TLC enumerates scenarios (training length, period, 0-2 update batches of length 1-5, transformed "
-             "stretch starting 0..12 after the training start, index origin) and proves the expected seasonal "
+             "stretch starting 0..12 after the training start, index origin; for the deseasonalizers also a daily DatetimeIndex with / without freq and a monthly PeriodIndex, and seasonality tests that depend on the data) and proves the expected seasonal "
              "phase is periodic and anchored at the training start; every series transformer of the registry "
              "runs a seeded sample: output index, the entry of the training series' seasonal pattern actually removed / restored at each time "
              "point (decoded against an independent classical decomposition), position-wise round trip, fit_transform vs "
